@@ -471,6 +471,7 @@ def witnessItem : Cat → Shape
   | .inline => .keyed .inline [("x", .scalar .number)]
   | .wrap => .wrap .anyOf (.coll .array (.scalar .number))
   | .enum => .scalar .enum
+  | .tupl => .coll .tuple (.coll .array (.scalar .number))
   | _ => .scalar .scalar
 
 def witnessShape (k : Kind) (c : Cat) : Shape :=
@@ -586,7 +587,9 @@ theorem anyOf_misfit_hands_out_stored :
 
 /-- the unsafe in-scope rows of today's table are exactly the listed ones -/
 theorem only_listed_rows_unsafe_today :
-    (Generated.aliasing.filter fun r => !r.safe && r.inScope).map (fun r => (r.op, r.kind, r.cat)) = knownRows := by
+    ((Generated.aliasing.filter fun r => !r.safe && r.inScope).all (fun r => knownRows.contains (r.op, r.kind, r.cat)) &&
+     knownRows.all (fun k => (Generated.aliasing.filter fun r => !r.safe && r.inScope).any
+       fun r => r.op == k.1 && r.kind == k.2.1 && r.cat == k.2.2)) = true := by
   decide +kernel
 
 /-- the full statement is still false of today's code (the misfit delegation of `AnyOf.serialize`) -/
